@@ -184,7 +184,11 @@ impl<A: Pay + Send + Sync, B: Pay + Send + Sync> Hnd for H2<A, B> {
         Some(conv2(self, r).0)
     }
     fn read(&self) -> R<u64> {
-        view2(self).map(|v| v.htag.wrapping_mul(31).wrapping_add(v.elems.iter().map(|e| e.1).sum::<u64>()))
+        view2(self).map(|v| {
+            v.htag
+                .wrapping_mul(31)
+                .wrapping_add(v.elems.iter().map(|e| e.1).sum::<u64>())
+        })
     }
     fn ident(&self) -> R<(u32, usize)> {
         view2(self).map(|v| (v.hid, v.heap.unwrap_or(0)))
@@ -223,7 +227,10 @@ struct ThreadOut {
 
 fn worker_prelude(tix: u8, seed: u64) {
     tk::set_thread_ix(tix);
-    sink::seed_thread(seed.wrapping_mul(0x9E37_79B9).wrapping_add(tix as u64 * 77 + 1));
+    sink::seed_thread(
+        seed.wrapping_mul(0x9E37_79B9)
+            .wrapping_add(tix as u64 * 77 + 1),
+    );
 }
 
 /// Run a random clone/convert/read/drop program on `hs`, releasing everything at the end.
@@ -294,7 +301,12 @@ fn run_prog<X: Hnd>(mut hs: Vec<X>, mut rng: Rng, len: usize, tix: u8) -> Thread
 }
 
 /// M4: offline checks over the recorded count operations.
-fn check_counts(outs: &[ThreadOut], allocs: &[(u32, usize)], props: &'static str, st: &mut CStats) -> R {
+fn check_counts(
+    outs: &[ThreadOut],
+    allocs: &[(u32, usize)],
+    props: &'static str,
+    st: &mut CStats,
+) -> R {
     use std::collections::BTreeMap;
     let mut adds: BTreeMap<(usize, usize), i64> = BTreeMap::new();
     let mut sig = String::new();
@@ -339,7 +351,12 @@ fn check_counts(outs: &[ThreadOut], allocs: &[(u32, usize)], props: &'static str
         if *block == 0 || allocs.iter().filter(|a| a.1 == *block).count() != 1 {
             continue;
         }
-        let finals: Vec<u8> = outs.iter().flat_map(|o| o.log.iter()).filter(|r| r.addr == *block && r.op == b'S' && r.value == 1).map(|r| r.tid).collect();
+        let finals: Vec<u8> = outs
+            .iter()
+            .flat_map(|o| o.log.iter())
+            .filter(|r| r.addr == *block && r.op == b'S' && r.value == 1)
+            .map(|r| r.tid)
+            .collect();
         if finals.len() == 1 && tk::state(*id) == tk::DEAD {
             let d = tk::dropper(*id);
             ensure!(
@@ -352,11 +369,22 @@ fn check_counts(outs: &[ThreadOut], allocs: &[(u32, usize)], props: &'static str
                 finals[0]
             );
             st.counts.bump(&format!("conc.destroyer.t{}", d));
-            if outs.iter().enumerate().any(|(t, o)| t as u8 != d && o.reads > 0) {
+            if outs
+                .iter()
+                .enumerate()
+                .any(|(t, o)| t as u8 != d && o.reads > 0)
+            {
                 readers_not_destroyer = true;
             }
         }
-        ensure!(finals.len() <= 1, props, "count-history", "{} threads observed 1 on their decrement of the count at {:#x}", finals.len(), block);
+        ensure!(
+            finals.len() <= 1,
+            props,
+            "count-history",
+            "{} threads observed 1 on their decrement of the count at {:#x}",
+            finals.len(),
+            block
+        );
     }
     let h = hash64(&sig);
     st.ileave.insert(h);
@@ -366,7 +394,13 @@ fn check_counts(outs: &[ThreadOut], allocs: &[(u32, usize)], props: &'static str
     Ok(())
 }
 
-fn finish(outs: Vec<ThreadOut>, allocs: &[(u32, usize)], props: &'static str, st: &mut CStats, scen: &str) -> Result<(), (Viol, Vec<String>)> {
+fn finish(
+    outs: Vec<ThreadOut>,
+    allocs: &[(u32, usize)],
+    props: &'static str,
+    st: &mut CStats,
+    scen: &str,
+) -> Result<(), (Viol, Vec<String>)> {
     let mut trace: Vec<String> = Vec::new();
     for o in &outs {
         trace.extend(o.trace.iter().cloned());
@@ -376,7 +410,11 @@ fn finish(outs: Vec<ThreadOut>, allocs: &[(u32, usize)], props: &'static str, st
         if let Some(v) = &o.viol {
             // a monitor inside a thread fired; attribute to the scenario's property as well
             let v = Viol {
-                props: if v.props.contains(props) { v.props } else { props },
+                props: if v.props.contains(props) {
+                    v.props
+                } else {
+                    props
+                },
                 oracle: v.oracle,
                 msg: format!("[{}] {}", scen, v.msg),
             };
@@ -407,8 +445,12 @@ fn finish(outs: Vec<ThreadOut>, allocs: &[(u32, usize)], props: &'static str, st
     if let Err(v) = check_counts(&outs, allocs, props, st) {
         return fail(v, trace);
     }
-    st.counts.add("conc.count_events", outs.iter().map(|o| o.log.len() as u64).sum());
-    st.counts.add("conc.payload_reads", outs.iter().map(|o| o.reads).sum());
+    st.counts.add(
+        "conc.count_events",
+        outs.iter().map(|o| o.log.len() as u64).sum(),
+    );
+    st.counts
+        .add("conc.payload_reads", outs.iter().map(|o| o.reads).sum());
     if st.sample.is_empty() {
         st.sample = trace.iter().take(40).cloned().collect();
     }
@@ -416,13 +458,24 @@ fn finish(outs: Vec<ThreadOut>, allocs: &[(u32, usize)], props: &'static str, st
 }
 
 fn spawn<T: Send + 'static>(f: impl FnOnce() -> T + Send + 'static) -> std::thread::JoinHandle<T> {
-    shadow::untracked(|| std::thread::Builder::new().stack_size(256 * 1024).spawn(f).expect("spawn"))
+    shadow::untracked(|| {
+        std::thread::Builder::new()
+            .stack_size(256 * 1024)
+            .spawn(f)
+            .expect("spawn")
+    })
 }
 
 // ---------------------------------------------------------------------------------------------
 // scenario: clonedrop [C02]
 
-pub fn clonedrop<X: Hnd>(seed: u64, make: &dyn Fn(u64) -> X, nthreads: usize, len: usize, st: &mut CStats) -> Result<(), (Viol, Vec<String>)> {
+pub fn clonedrop<X: Hnd>(
+    seed: u64,
+    make: &dyn Fn(u64) -> X,
+    nthreads: usize,
+    len: usize,
+    st: &mut CStats,
+) -> Result<(), (Viol, Vec<String>)> {
     let id0 = tk::next_id();
     let mut rng = Rng::new(seed);
     let nalloc = 1 + rng.below(2);
@@ -511,8 +564,22 @@ pub fn clonedrop<X: Hnd>(seed: u64, make: &dyn Fn(u64) -> X, nthreads: usize, le
 
 static RELEASING: AtomicUsize = AtomicUsize::new(0);
 
-pub fn uniqpoll(seed: u64, api: usize, nsharers: usize, st: &mut CStats) -> Result<(), (Viol, Vec<String>)> {
-    const APIS: [&str; 8] = ["get_mut", "is_unique+get_mut", "get_unique", "try_unique", "try_from", "try_unwrap", "thin.with_arc_mut.get_mut", "off.make_mut-when-unique"];
+pub fn uniqpoll(
+    seed: u64,
+    api: usize,
+    nsharers: usize,
+    st: &mut CStats,
+) -> Result<(), (Viol, Vec<String>)> {
+    const APIS: [&str; 8] = [
+        "get_mut",
+        "is_unique+get_mut",
+        "get_unique",
+        "try_unique",
+        "try_from",
+        "try_unwrap",
+        "thin.with_arc_mut.get_mut",
+        "off.make_mut-when-unique",
+    ];
     let api = api % APIS.len();
     let id0 = tk::next_id();
     tk::set_thread_ix(0);
@@ -525,11 +592,21 @@ pub fn uniqpoll(seed: u64, api: usize, nsharers: usize, st: &mut CStats) -> Resu
     let granted;
     if api == 6 {
         // thin world
-        let root: ThinArc<TV, T8> = shadow::tracked(|| ThinArc::from_header_and_iter(TV::make(5), crate::thin::Mk::<T8> { left: 3, tag0: 9, _p: std::marker::PhantomData }));
+        let root: ThinArc<TV, T8> = shadow::tracked(|| {
+            ThinArc::from_header_and_iter(
+                TV::make(5),
+                crate::thin::Mk::<T8> {
+                    left: 3,
+                    tag0: 9,
+                    _p: std::marker::PhantomData,
+                },
+            )
+        });
         allocs.push((root.header.header.id(), root.heap_ptr() as usize));
         let mut hs = Vec::new();
         for t in 0..nsharers {
-            let h: H2<TV, T8> = shadow::tracked(|| dup2(&H2::Thin(root.clone()), rng.below(3)).unwrap().0);
+            let h: H2<TV, T8> =
+                shadow::tracked(|| dup2(&H2::Thin(root.clone()), rng.below(3)).unwrap().0);
             let tix = (t + 1) as u8;
             hs.push(spawn(move || {
                 worker_prelude(tix, seed);
@@ -590,14 +667,24 @@ pub fn uniqpoll(seed: u64, api: usize, nsharers: usize, st: &mut CStats) -> Resu
         let out0 = ThreadOut {
             viol,
             log: Vec::new(),
-            trace: vec![format!("t0: polled {} {} times, granted={}", APIS[api], polls, g)],
+            trace: vec![format!(
+                "t0: polled {} {} times, granted={}",
+                APIS[api], polls, g
+            )],
             reads: 0,
         };
         for h in hs {
             outs.push(h.join().expect("join"));
         }
         if let Err(e) = root.header.header.check() {
-            return Err((Viol { props: "C03", oracle: "uniq-schedule", msg: e }, vec![]));
+            return Err((
+                Viol {
+                    props: "C03",
+                    oracle: "uniq-schedule",
+                    msg: e,
+                },
+                vec![],
+            ));
         }
         shadow::tracked(|| drop(root));
         let mut o = out0;
@@ -689,7 +776,11 @@ pub fn uniqpoll(seed: u64, api: usize, nsharers: usize, st: &mut CStats) -> Resu
                 }
                 3 | 4 => {
                     let a = root_opt.take().unwrap();
-                    let r = if api == 3 { Arc::try_unique(a) } else { <UniqueArc<TV> as std::convert::TryFrom<Arc<TV>>>::try_from(a) };
+                    let r = if api == 3 {
+                        Arc::try_unique(a)
+                    } else {
+                        <UniqueArc<TV> as std::convert::TryFrom<Arc<TV>>>::try_from(a)
+                    };
                     match r {
                         Ok(mut u) => {
                             check_rel("try_unique", &mut viol);
@@ -749,19 +840,33 @@ pub fn uniqpoll(seed: u64, api: usize, nsharers: usize, st: &mut CStats) -> Resu
             drop(off);
         });
         if let Err(e) = final_check {
-            return Err((Viol { props: "C03", oracle: "uniq-schedule", msg: e }, vec![]));
+            return Err((
+                Viol {
+                    props: "C03",
+                    oracle: "uniq-schedule",
+                    msg: e,
+                },
+                vec![],
+            ));
         }
         outs.insert(
             0,
             ThreadOut {
                 viol,
                 log: sink::take(),
-                trace: vec![format!("t0: polled {} {} times, granted={}", APIS[api], polls, g)],
+                trace: vec![format!(
+                    "t0: polled {} {} times, granted={}",
+                    APIS[api], polls, g
+                )],
                 reads: 0,
             },
         );
     }
-    st.counts.bump(&format!("conc.uniqpoll.{}.{}", APIS[api], if granted { "granted" } else { "never" }));
+    st.counts.bump(&format!(
+        "conc.uniqpoll.{}.{}",
+        APIS[api],
+        if granted { "granted" } else { "never" }
+    ));
     let r = finish(outs, &allocs, "C03", st, "uniqpoll");
     tk::reset_range(id0);
     r
@@ -770,7 +875,12 @@ pub fn uniqpoll(seed: u64, api: usize, nsharers: usize, st: &mut CStats) -> Resu
 // ---------------------------------------------------------------------------------------------
 // scenario: cow [C08] -- writer make_mut()s and writes while readers read their snapshot and drop
 
-pub fn cow(seed: u64, api: usize, nreaders: usize, st: &mut CStats) -> Result<(), (Viol, Vec<String>)> {
+pub fn cow(
+    seed: u64,
+    api: usize,
+    nreaders: usize,
+    st: &mut CStats,
+) -> Result<(), (Viol, Vec<String>)> {
     const APIS: [&str; 3] = ["make_mut", "make_unique", "off.make_mut"];
     let api = api % 3;
     let id0 = tk::next_id();
@@ -863,13 +973,25 @@ pub fn cow(seed: u64, api: usize, nreaders: usize, st: &mut CStats) -> Result<()
     });
     let cloned = tk::clones() - clones0;
     if new_tag != 90 {
-        viol = Some(Viol { props: "C08", oracle: "cow-schedule", msg: "the write is not visible through the writing handle".into() });
+        viol = Some(Viol {
+            props: "C08",
+            oracle: "cow-schedule",
+            msg: "the write is not visible through the writing handle".into(),
+        });
     }
     if in_place && cloned != 0 {
-        viol = Some(Viol { props: "C08", oracle: "cow-schedule", msg: "kept the allocation but cloned the value".into() });
+        viol = Some(Viol {
+            props: "C08",
+            oracle: "cow-schedule",
+            msg: "kept the allocation but cloned the value".into(),
+        });
     }
     if !in_place && cloned != 1 {
-        viol = Some(Viol { props: "C08", oracle: "cow-schedule", msg: format!("moved to a new allocation with {} clones", cloned) });
+        viol = Some(Viol {
+            props: "C08",
+            oracle: "cow-schedule",
+            msg: format!("moved to a new allocation with {} clones", cloned),
+        });
     }
     let mut outs = Vec::new();
     for h in hs {
@@ -881,7 +1003,11 @@ pub fn cow(seed: u64, api: usize, nreaders: usize, st: &mut CStats) -> Result<()
         _ => Ok(()),
     };
     if let Err(e) = chk {
-        viol = Some(Viol { props: "C08", oracle: "cow-schedule", msg: e });
+        viol = Some(Viol {
+            props: "C08",
+            oracle: "cow-schedule",
+            msg: e,
+        });
     }
     shadow::tracked(|| {
         drop(w);
@@ -892,16 +1018,30 @@ pub fn cow(seed: u64, api: usize, nreaders: usize, st: &mut CStats) -> Result<()
         ThreadOut {
             viol,
             log: sink::take(),
-            trace: vec![format!("t0: {} after {} yields -> in_place={}", APIS[api], spins, in_place)],
+            trace: vec![format!(
+                "t0: {} after {} yields -> in_place={}",
+                APIS[api], spins, in_place
+            )],
             reads: 0,
         },
     );
-    st.counts.bump(&format!("conc.cow.{}.{}", APIS[api], if in_place { "in-place" } else { "copied" }));
+    st.counts.bump(&format!(
+        "conc.cow.{}.{}",
+        APIS[api],
+        if in_place { "in-place" } else { "copied" }
+    ));
     let r = finish(outs, &allocs, "C08", st, "cow");
     if r.is_ok() && tk::live() != 0 {
         let n = tk::live();
         tk::reset_range(id0);
-        return Err((Viol { props: "C08,C01", oracle: "live", msg: format!("[cow] {} tracked values alive at the end", n) }, vec![]));
+        return Err((
+            Viol {
+                props: "C08,C01",
+                oracle: "live",
+                msg: format!("[cow] {} tracked values alive at the end", n),
+            },
+            vec![],
+        ));
     }
     tk::reset_range(id0);
     r
@@ -911,7 +1051,13 @@ pub fn cow(seed: u64, api: usize, nreaders: usize, st: &mut CStats) -> Result<()
 // scenario: unwraprace [C09] -- every thread calls one of try_unwrap/try_unique/unwrap_or_clone/drop
 
 pub fn unwraprace(seed: u64, nthreads: usize, st: &mut CStats) -> Result<(), (Viol, Vec<String>)> {
-    const APIS: [&str; 5] = ["try_unwrap", "try_unique", "unwrap_or_clone", "drop", "try_from"];
+    const APIS: [&str; 5] = [
+        "try_unwrap",
+        "try_unique",
+        "unwrap_or_clone",
+        "drop",
+        "try_from",
+    ];
     let id0 = tk::next_id();
     tk::set_thread_ix(0);
     let mut rng = Rng::new(seed);
@@ -924,7 +1070,11 @@ pub fn unwraprace(seed: u64, nthreads: usize, st: &mut CStats) -> Result<(), (Vi
     let mut my = Some(root);
     // outcome per thread: 0 nothing, 1 received the original value, 2 received a clone
     for t in 0..nthreads {
-        let a = if t + 1 == nthreads { my.take().unwrap() } else { shadow::tracked(|| my.as_ref().unwrap().clone()) };
+        let a = if t + 1 == nthreads {
+            my.take().unwrap()
+        } else {
+            shadow::tracked(|| my.as_ref().unwrap().clone())
+        };
         let api = rng.below(APIS.len());
         let tix = t as u8 + 1;
         let b = barrier.clone();
@@ -937,7 +1087,9 @@ pub fn unwraprace(seed: u64, nthreads: usize, st: &mut CStats) -> Result<(), (Vi
                 let val: Option<TV> = match api {
                     0 => Arc::try_unwrap(a).ok(),
                     1 => Arc::try_unique(a).ok().map(UniqueArc::into_inner),
-                    4 => <UniqueArc<TV> as std::convert::TryFrom<Arc<TV>>>::try_from(a).ok().map(UniqueArc::into_inner),
+                    4 => <UniqueArc<TV> as std::convert::TryFrom<Arc<TV>>>::try_from(a)
+                        .ok()
+                        .map(UniqueArc::into_inner),
                     2 => Some(Arc::unwrap_or_clone(a)),
                     _ => {
                         drop(a);
@@ -946,13 +1098,24 @@ pub fn unwraprace(seed: u64, nthreads: usize, st: &mut CStats) -> Result<(), (Vi
                 };
                 if let Some(v) = val {
                     if let Err(e) = v.check() {
-                        viol = Some(Viol { props: "C09", oracle: "unwrap-schedule", msg: format!("value received from {} is not intact: {}", APIS[api], e) });
+                        viol = Some(Viol {
+                            props: "C09",
+                            oracle: "unwrap-schedule",
+                            msg: format!("value received from {} is not intact: {}", APIS[api], e),
+                        });
                     } else if v.id() == orig {
                         got = 1;
                     } else if tk::origin(v.id()) == orig && api == 2 {
                         got = 2;
                     } else {
-                        viol = Some(Viol { props: "C09", oracle: "unwrap-schedule", msg: format!("{} returned a value that is neither the original nor its clone", APIS[api]) });
+                        viol = Some(Viol {
+                            props: "C09",
+                            oracle: "unwrap-schedule",
+                            msg: format!(
+                                "{} returned a value that is neither the original nor its clone",
+                                APIS[api]
+                            ),
+                        });
                     }
                     if viol.is_none() {
                         drop(v);
@@ -965,7 +1128,12 @@ pub fn unwraprace(seed: u64, nthreads: usize, st: &mut CStats) -> Result<(), (Vi
                 ThreadOut {
                     viol,
                     log: sink::take(),
-                    trace: vec![format!("t{}: {} -> {}", tix, APIS[api], ["nothing", "original", "clone"][got as usize])],
+                    trace: vec![format!(
+                        "t{}: {} -> {}",
+                        tix,
+                        APIS[api],
+                        ["nothing", "original", "clone"][got as usize]
+                    )],
                     reads: 1,
                 },
                 got,
@@ -989,21 +1157,43 @@ pub fn unwraprace(seed: u64, nthreads: usize, st: &mut CStats) -> Result<(), (Vi
         sigs.push_str("; ");
         outs.push(o);
     }
-    st.counts.bump(&format!("conc.unwraprace.receivers={}", receivers));
+    st.counts
+        .bump(&format!("conc.unwraprace.receivers={}", receivers));
     if receivers > 1 {
         tk::reset_range(id0);
-        return Err((Viol { props: "C09", oracle: "unwrap-schedule", msg: format!("{} threads received the original value", receivers) }, vec![sigs]));
+        return Err((
+            Viol {
+                props: "C09",
+                oracle: "unwrap-schedule",
+                msg: format!("{} threads received the original value", receivers),
+            },
+            vec![sigs],
+        ));
     }
     let r = finish(outs, &allocs, "C09", st, "unwraprace");
     if r.is_ok() {
         if tk::state(orig) != tk::DEAD {
             tk::reset_range(id0);
-            return Err((Viol { props: "C09", oracle: "unwrap-schedule", msg: "the value was neither handed out nor destroyed".into() }, vec![sigs]));
+            return Err((
+                Viol {
+                    props: "C09",
+                    oracle: "unwrap-schedule",
+                    msg: "the value was neither handed out nor destroyed".into(),
+                },
+                vec![sigs],
+            ));
         }
         if tk::live() != 0 {
             let n = tk::live();
             tk::reset_range(id0);
-            return Err((Viol { props: "C09,C01", oracle: "live", msg: format!("[unwraprace] {} tracked values alive at the end", n) }, vec![sigs]));
+            return Err((
+                Viol {
+                    props: "C09,C01",
+                    oracle: "live",
+                    msg: format!("[unwraprace] {} tracked values alive at the end", n),
+                },
+                vec![sigs],
+            ));
         }
     }
     tk::reset_range(id0);
